@@ -112,7 +112,7 @@ func raFrame(ethSrc net.HardwareAddr, src netip.Addr, msg []byte) []byte {
 // of by copy changes under its feet and shows up in the router table read later.
 type rxBuf struct{ b []byte }
 
-func newRxBuf() *rxBuf { return &rxBuf{b: make([]byte, 2048)} }
+func newRxBuf() *rxBuf { return &rxBuf{b: make([]byte, 8192)} } // an RA with a 255*8 byte option and more fits
 
 func (x *rxBuf) load(frame []byte) []byte {
 	n := copy(x.b, frame)
@@ -431,6 +431,9 @@ func main() {
 	for _, c := range directedRAs() {
 		emit("directed", c)
 	}
+	for _, c := range countDomainRAs(rng) {
+		emit("count-domain", c)
+	}
 	// ICMPv6 messages carried by an IPv4 packet with protocol 58 (Parse classifies them as ICMPv6)
 	for _, t := range []byte{135, 200, 128, 136, 133} {
 		m := make([]byte, 24+8*rng.Intn(3))
@@ -456,6 +459,10 @@ func main() {
 		[4][]byte{zero, d[0], lib.RouterMAC, d[0]},           // created from an all-zero Ethernet source
 		[4][]byte{lib.RouterMAC, d[0], zero, d[3]},
 	)
+	cd := countDomainRAs(rng)
+	for i := 0; i < 12; i++ { // many-entry options as the creating and as the updating advertisement
+		pairs = append(pairs, [4][]byte{lib.RouterMAC, cd[rng.Intn(len(cd))], lib.RouterMAC, cd[rng.Intn(len(cd))]})
+	}
 	for i := 0; i < n2; i++ {
 		_, m1 := genRA(rng)
 		_, m2 := genRA(rng)
